@@ -5,7 +5,8 @@ every ConvContract event the emitted types must be exactly the target types reac
 in target order, with the requested channel counts; the model's result must carry the requested output
 types (reachable ones), channel counts and order, and the input's spatial extents, D and flags. The
 icontract structural invariant on MultiImage is deciding. Conventional mode: the scalar flatten/unflatten
-is observed through ModelWrapper with harness inner models and unique ids (reference re-layout)."""
+is observed through ModelWrapper with harness inner models and unique ids (reference re-layout). Wrapper classes are
+models too: a group-averaged variant of every third model and Climate1D (past/future steps 1..3, every type order)."""
 from __future__ import annotations
 
 import numpy as np
